@@ -388,11 +388,11 @@ def Oracle.onNode (stmt : Bool) (o : Oracle) : Bool := if stmt then o.onSubExpr 
 an expression list is handled element-wise -/
 def relFilter (stmt : Bool) (r : Rel) (o : Oracle) : Bool :=
   match r with
-  | .typeIs | .typeUnderlyingIs | .comparable =>
+  | .typeIs | .typeUnderlyingIs | .comparable | .hasMethod =>   -- HasMethod: element-wise since the `fix:` commit 4160912
     match o.onElems with | some l => allElems l | none => o.onNode stmt
   | .convertibleTo | .assignableTo | .implements | .addressable | .const =>
     match o.onElems with | some l => allElems l | none => o.onSubExpr
-  | .hasMethod | .identicalTo => o.onNode stmt
+  | .identicalTo => o.onNode stmt
   -- `makeRootSinkTypeIsFilter` reads the match node and its ancestors, `makeTextMatchesFilter` /
   -- `makeTextConstFilter` read `nodeText(params.subNode(v))`: the node itself (an expression list is one
   -- node: its text is the span of its elements, "" when empty), no list case
